@@ -2401,6 +2401,22 @@ def get_data_into(
   # efc
   result.efc_type[:] = d.efc.type.numpy()[world_id, efc_idx]
   result.efc_id[:] = d.efc.id.numpy()[world_id, efc_idx]
+  if ncon > 0 and nefc > 0:
+    # efc_id of a contact row: the device holds the index into the flat multi-world contact buffer,
+    # MuJoCo's is the index into result.contact. Ids that do not point at a contact of this world
+    # (put_data tiles MuJoCo's own ids) are left unchanged.
+    conid_local = np.full(ncon_filter.size, -1, dtype=int)
+    conid_local[ncon_filter] = np.arange(ncon)
+    contact_types = (
+      mujoco.mjtConstraint.mjCNSTR_CONTACT_FRICTIONLESS,
+      mujoco.mjtConstraint.mjCNSTR_CONTACT_PYRAMIDAL,
+      mujoco.mjtConstraint.mjCNSTR_CONTACT_ELLIPTIC,
+    )
+    is_contact = np.isin(result.efc_type, contact_types)
+    ids = result.efc_id[is_contact]
+    in_range = (ids >= 0) & (ids < conid_local.size)
+    local = np.where(in_range, conid_local[np.where(in_range, ids, 0)], -1)
+    result.efc_id[is_contact] = np.where(local >= 0, local, ids)
   result.efc_pos[:] = d.efc.pos.numpy()[world_id, efc_idx]
   result.efc_margin[:] = d.efc.margin.numpy()[world_id, efc_idx]
   result.efc_D[:] = d.efc.D.numpy()[world_id, efc_idx]
